@@ -513,10 +513,11 @@ def deepcopy_selfcheck():
 def nested_container_classes(m):
     """node classes whose match returns a tuple with a nested tuple/list literal among its elements: their `items` hold containers of nodes"""
     base = m.key("Base", UTILS)
+    blockbase = m.key("BlockBase", UTILS)
     out = []
     for k in sorted(m.classes):
-        if not m.issub(k, base) or "match" not in m.classes[k]["own"]:
-            continue
+        if not m.issub(k, base) or "match" not in m.classes[k]["own"] or m.issub(k, blockbase):
+            continue        # (a block engine's result tuple holds the arguments of init(), not the items)
         f = m.method(k, "match")
         if f is None:
             continue
